@@ -63,4 +63,68 @@ example : (mpf_set 0 (mkSt r5 default default) .r).ok = true ∧
 -- negative: `prec = r->_mp_prec + 2` copies four limbs into the three-limb block
 example : (mpf_set 1 (mkSt r2 u5 default) .u).ok = false := by decide
 
+/-- mpf_set_ui (f, val) (mpf/set_ui.c): one limb stored at f->_mp_d[0] (also for val = 0). -/
+theorem mpf_set_ui_dest_safe (s : St) (w : Nat) (hw : w < B) (hs : s.ok = true) (hr : DestWF s.r) :
+    (mpf_set_ui s w).ok = true ∧ (mpf_set_ui s w).u = s.u ∧ (mpf_set_ui s w).v = s.v ∧
+    (mpf_set_ui s w).r.prec = s.r.prec ∧ (mpf_set_ui s w).r.blk.alloc = s.r.blk.alloc ∧ BlkWF (mpf_set_ui s w).r.blk ∧
+    (mpf_set_ui s w).r.view = Mpf.set_ui s.r.prec w ∧ Mpf.WF (mpf_set_ui s w).r.view := by
+  obtain ⟨hrb, hra⟩ := hr
+  obtain ⟨c1, c2, c3, _, c4, _, _, c7, c8, c9⟩ := wrR_spec s 0 [w] hs hrb (by simp only [List.length_singleton]; omega)
+  have e : mpf_set_ui s w = (s.wrR 0 [w]).setSE (if w ≠ 0 then 1 else 0) (if w ≠ 0 then 1 else 0) := by
+    simp only [mpf_set_ui, Nat.mod_eq_of_lt hw]
+  have hview : (mpf_set_ui s w).r.view = Mpf.set_ui s.r.prec w := by
+    rw [e]
+    simp only [St.setSE, FObj.view, Mpf.set_ui, c4, c9]
+    by_cases h0 : w = 0 <;> simp [h0]
+  refine ⟨?_, ?_, ?_, ?_, ?_, ?_, hview, ?_⟩
+  · rw [e]; exact c1
+  · rw [e]; exact c2
+  · rw [e]; exact c3
+  · rw [e]; exact c4
+  · rw [e]; exact c7
+  · rw [e]; exact c8
+  rw [hview]; exact (Mpf.set_ui_exact' s.r.prec w hw).2
+
+example : (mpf_set_ui (mkSt r2 default default) 7).out = (1, 1, [7, junk, junk]) := by decide
+example : (mpf_set_ui (mkSt r2 default default) 0).out = (0, 0, [0, junk, junk]) := by decide
+-- negative: a destination without a block (PREC + 1 = 0 limbs cannot happen; the store at index 0 needs one limb)
+example : (mpf_set_ui (mkSt (mkObj 2 false 0 [] 0) default default) 7).ok = false := by decide
+
+/-- mpf_set_si (dest, val) (mpf/set_si.c): one limb stored at dest->_mp_d[0]. -/
+theorem mpf_set_si_dest_safe (s : St) (w : Int) (hw : w.natAbs < B) (hs : s.ok = true) (hr : DestWF s.r) :
+    (mpf_set_si s w).ok = true ∧ (mpf_set_si s w).u = s.u ∧ (mpf_set_si s w).v = s.v ∧
+    (mpf_set_si s w).r.prec = s.r.prec ∧ (mpf_set_si s w).r.blk.alloc = s.r.blk.alloc ∧ BlkWF (mpf_set_si s w).r.blk ∧
+    (mpf_set_si s w).r.view = Mpf.set_si s.r.prec w ∧ Mpf.WF (mpf_set_si s w).r.view := by
+  obtain ⟨hrb, hra⟩ := hr
+  obtain ⟨c1, c2, c3, _, c4, _, _, c7, c8, c9⟩ := wrR_spec s 0 [w.natAbs] hs hrb (by simp only [List.length_singleton]; omega)
+  have e : mpf_set_si s w = (s.wrR 0 [w.natAbs]).setSE
+      (if w ≥ 0 then (if w.natAbs ≠ 0 then 1 else 0) else -(if w.natAbs ≠ 0 then 1 else 0)) (if w.natAbs ≠ 0 then 1 else 0) := by
+    simp only [mpf_set_si, Nat.mod_eq_of_lt hw]
+  have hview : (mpf_set_si s w).r.view = Mpf.set_si s.r.prec w := by
+    rw [e]
+    simp only [St.setSE, FObj.view, Mpf.set_si, c4, c9]
+    by_cases h0 : w = 0
+    · simp [h0]
+    · have : w.natAbs ≠ 0 := by omega
+      by_cases hp : w ≥ 0 <;> simp [h0, hp]
+  refine ⟨?_, ?_, ?_, ?_, ?_, ?_, hview, ?_⟩
+  · rw [e]; exact c1
+  · rw [e]; exact c2
+  · rw [e]; exact c3
+  · rw [e]; exact c4
+  · rw [e]; exact c7
+  · rw [e]; exact c8
+  rw [hview]; unfold Mpf.set_si
+  by_cases h0 : w = 0
+  · rw [if_pos h0]; exact Mpf.WF_zero _
+  · rw [if_neg h0]
+    have hn : w.natAbs ≠ 0 := by omega
+    refine ⟨Limbs_cons.mpr ⟨hw, Limbs_nil⟩, ?_, ?_, ?_, ?_⟩
+    · by_cases hp : w ≥ 0 <;> simp [hp]
+    · by_cases hp : w ≥ 0 <;> simp [hp]
+    · simp; omega
+    · by_cases hp : w ≥ 0 <;> simp [hp]
+
+example : (mpf_set_si (mkSt r2 default default) (-7)).out = (-1, 1, [7, junk, junk]) := by decide
+
 end Mpir.AllocSafe7
